@@ -38,6 +38,8 @@ CONFIGS = {
     'tsan': dict(cc='gcc', cflags=['-std=gnu99', '-O1', '-g', '-fsanitize=thread'] + SAN_COMMON,
                  ld=['-fsanitize=thread']),
     'vg': dict(cc='gcc', cflags=['-std=gnu99', '-O0', '-g', '-fno-builtin'], ld=[]),
+    # the library as a release build (what CMAKE_BUILD_TYPE=Release produces: -O3 -DNDEBUG, builtins on); the harness itself stays at -O1
+    'rel': dict(cc='gcc', cflags=['-std=gnu99', '-O3', '-g', '-DNDEBUG'], hflags=['-O1', '-g', '-fno-builtin'], ld=[]),
     'fuzz': dict(cc='clang', cflags=['-std=gnu99', '-O1', '-g', '-fsanitize=fuzzer-no-link,address,undefined',
                                      '-fno-sanitize=nonnull-attribute,returns-nonnull-attribute',
                                      '-fno-sanitize-recover=all'] + SAN_COMMON,
@@ -102,7 +104,7 @@ def build_harness(bdir, config, harness, lib_objs, wraps, extra_srcs=(), extra_c
             srcs.append(os.path.join(hdir, 'wrap_%s.c' % w))
     if 'alloc' not in wraps:
         raise Inconclusive('alloc wrap is mandatory (vfc uses __real_malloc)')
-    hflags = [f for f in cfg['cflags'] if f != '-std=gnu99'] + ['-std=gnu11', '-D' + GUARD, '-Wall', '-Wno-unused-function',
+    hflags = [f for f in cfg.get('hflags', cfg['cflags']) if f != '-std=gnu99'] + ['-std=gnu11', '-D' + GUARD, '-Wall', '-Wno-unused-function',
                                                                   '-Wno-unused-variable', '-Wno-unused-but-set-variable']
     objs = []
 
@@ -338,7 +340,7 @@ def run_shard(exe, job, prop, tier, seed, shard, odir, rdir):
             break
         res = open(out + '.res', errors='replace').read() if os.path.exists(out + '.res') else ''
         m = re.findall(r'^(?:HANG|CRASH)\t(\d+)$', res, re.M)
-        if rc in (41, 42) and m and restarts < 400:
+        if rc in (41, 42) and m and restarts < 100:   # 100 hung or crashed cases per shard are evidence enough; the shard then ends without DONE (reported)
             start_case = int(m[-1]) + 1
             restarts += 1
             continue
